@@ -513,6 +513,9 @@ class IncomerTls(Incomer):
             if self.wlog:  # log over the wire rx
                 self.wlog.writeRx(self.ca, data)
 
+            if self.refreshable:
+                self.refresh()
+
         else:  # data empty so connection closed on other end
             self.cutoff = True
 
@@ -563,6 +566,9 @@ class IncomerTls(Incomer):
 
             if self.wlog:
                 self.wlog.writeTx(self.ca, data[:result])
+
+            if self.refreshable:
+                self.refresh()
 
         return result
 
